@@ -7,6 +7,7 @@ import (
 	"os"
 	"path/filepath"
 	"strconv"
+	"strings"
 	"time"
 
 	"github.com/glyphlang/glyph/pkg/ast"
@@ -157,6 +158,15 @@ func setupRoutes(module *ast.Module, filePath string, forceInterpreter ...bool) 
 						return
 					}
 					printWarning(fmt.Sprintf("Compilation failed for %s: %v, falling back to interpreter", route.Path, compileErr))
+					useCompiler = false
+					break
+				}
+				// The VM calls its own built-ins only: a route that calls a
+				// user-defined function or a built-in only the interpreter has
+				// compiles, but answered 500 ("undefined function") where
+				// --interpret answers. Such a module runs on the interpreter.
+				if missing := c.UnavailableCalls(); len(missing) > 0 {
+					printInfo(fmt.Sprintf("%s calls %s, which compiled routes cannot run, using interpreter mode", route.Path, strings.Join(missing, ", ")))
 					useCompiler = false
 					break
 				}
